@@ -148,9 +148,14 @@ class _PackedBoolArray:
         if (newsize + self._start_index) % 8 != 0:
             newsize_data += 1
 
-        self._stop_index = newsize + self._start_index
+        if not self._data.flags.owndata:
+            # A buffer that does not own its memory (e.g. read from a file) cannot
+            # be resized in place.
+            self._data = self._data.copy()
 
         self._data.resize(newsize_data, refcheck=refcheck)
+
+        self._stop_index = newsize + self._start_index
 
     def sum(self, shape=None, axis=None):
         if shape is None:
